@@ -3,10 +3,12 @@
    a CTR / BelT core driven block-wise equals the byte-level cipher on whole blocks (any number of
    blocks, any width); the private CBC/ECB helpers of cts equal the cbc crate's recurrences / raw block
    encryption (so CS1/CS2 on whole blocks run exactly plain CBC through them); every construction route
-   builds the same model object.  Not proved yet (covered by correspondence and the implementation-side
-   predicates of gen/props/c14.py only): buffered CFB = block CFB = one-shot CFB as theorems about
-   Plumbing.async_inout / buf_apply; the CS3 exchange of the last two blocks on whole-block messages. *)
-From BM Require Import BlockModes Spec BlockModes_proofs Plumbing Toy Ints Ctr Belt Stream Cts Stream_proofs Cts_proofs
+   builds the same model object; buffered CFB = the CFB recurrence = block-level CFB (C14_buffered_vs_block_cfb);
+   on whole blocks the six stealing variants, both directions, are plain CBC / raw block encryption
+   with the CS3 exchange of the last two blocks (C14_cts_whole_blocks_*).  Not proved yet (covered by
+   correspondence and the implementation-side predicates of gen/props/c14.py only): one-shot CFB
+   (Plumbing.async_inout) = block CFB as a theorem; the OFB byte-level wrapper vs the block encryptor. *)
+From BM Require Import BlockModes Spec BlockModes_proofs Plumbing Toy Ints Ctr Belt Stream Cts Cts_mem Cts_spec Cts_cs_proofs Cts_dec_proofs Stream_proofs Cts_proofs
   Interp Interp_proofs Wrapper_proofs Wrapper_inst Outcome Buf_proofs.
 
 (* OFB: three of the four front-ends at block level *)
@@ -67,6 +69,36 @@ Proof.
   - apply cts_ecb_dec_eq.
 Qed.
 Print Assumptions C14_cts_helpers.
+
+(* on a whole number of blocks CBC-CS1 and CBC-CS2 are plain CBC, ECB-CS1/CS2 raw block encryption;
+   CS3 is the same with the last two blocks exchanged (cs3_layout _ bs; identity for one block) *)
+Theorem C14_cts_whole_blocks_enc : forall (C : cipher), cipher_wf C -> forall iv m (blocks : list block),
+  length iv = c_bs C -> msg_mem C m blocks [] ->
+  (exists m', cbc_cs1_enc C iv m = Ok m' /\ m_out m' = concat (cbc_enc_spec (c_E C) iv blocks)) /\
+  (exists m', cbc_cs2_enc C iv m = Ok m' /\ m_out m' = concat (cbc_enc_spec (c_E C) iv blocks)) /\
+  (exists m', cbc_cs3_enc C iv m = Ok m' /\ m_out m' = cs3_layout (cbc_enc_spec (c_E C) iv blocks) (c_bs C)) /\
+  (exists m', ecb_cs1_enc C m = Ok m' /\ m_out m' = concat (map (c_E C) blocks)) /\
+  (exists m', ecb_cs2_enc C m = Ok m' /\ m_out m' = concat (map (c_E C) blocks)) /\
+  (exists m', ecb_cs3_enc C m = Ok m' /\ m_out m' = cs3_layout (map (c_E C) blocks) (c_bs C)).
+Proof. exact cts_whole_enc. Qed.
+Print Assumptions C14_cts_whole_blocks_enc.
+
+Theorem C14_cts_whole_blocks_dec : forall (C : cipher), cipher_wf C -> forall iv m (cb : list block),
+  length iv = c_bs C -> msg_mem C m cb [] ->
+  (exists m', cbc_cs1_dec C iv m = Ok m' /\ m_out m' = concat (cbc_dec_spec (c_D C) iv cb)) /\
+  (exists m', cbc_cs2_dec C iv m = Ok m' /\ m_out m' = concat (cbc_dec_spec (c_D C) iv cb)) /\
+  (exists m', ecb_cs1_dec C m = Ok m' /\ m_out m' = concat (map (c_D C) cb)) /\
+  (exists m', ecb_cs2_dec C m = Ok m' /\ m_out m' = concat (map (c_D C) cb)) /\
+  (exists m', ecb_cs3_dec C m = Ok m' /\ m_out m' = cs3_layout (map (c_D C) cb) (c_bs C)).
+Proof. exact cts_whole_dec. Qed.
+Print Assumptions C14_cts_whole_blocks_dec.
+
+Theorem C14_cbc_cs3_whole_blocks_dec : forall (C : cipher), cipher_wf C -> forall iv m (pre : list block) (a b : block),
+  length iv = c_bs C -> all_len (c_bs C) pre -> length a = c_bs C -> length b = c_bs C -> mwf m ->
+  msrc m = concat pre ++ b ++ a ->
+  exists m', cbc_cs3_dec C iv m = Ok m' /\ m_out m' = concat (cbc_dec_spec (c_D C) iv (pre ++ [a; b])).
+Proof. exact cbc_cs3_whole_dec. Qed.
+Print Assumptions C14_cbc_cs3_whole_blocks_dec.
 
 (* constructing from key bytes, from an already keyed cipher, or from slices builds the same object:
    the route is not even an input of the model's constructor once the lengths are right *)
